@@ -12,7 +12,7 @@ from pathlib import Path
 
 import vlib
 
-IMPORTS_SRC = "From PV Require Import C12.Model.\nFrom PV Require C12.SrcRun.\n"
+IMPORTS_SRC = "From PV Require Import C12.Model.\nFrom PV Require C12.SrcRun C12.SrcRunV.\n"
 
 SRC_TIE_THEOREMS = ["c12_source_load_ref_is_model", "c12_source_load_ref_wraps", "c12_source_write_hyp_is_model",
                     "c12_source_roundtrip_1d", "c12_source_roundtrip_2d", "c12_source_validate_is_model"]
@@ -63,6 +63,25 @@ def rw_terms(c12, case, res):
     return out
 
 
+def validate_terms(c12, case, res):
+    """-> [(step index, term)]: every validate_spect_data_set call of a directory case, from the observed pre-state
+    (suppress_alis=True is outside the tie: the translator renders the failing 3-name unpacking of a 2-tuple as IndexError)"""
+    cfg = case.get("cfg", {})
+    if cfg.get("suppress_alis"):
+        return []
+    out = []
+    for si, st in enumerate(res.get("steps", [])):
+        op = st["op"]
+        if op["api"] != "validate":
+            continue
+        f = op["fix"]
+        fa = "FNone" if f is None else (f"(FBool {c12.cb(f)})" if isinstance(f, bool) else f"(FInt {c12.cz(f)})")
+        exc = st["out"]["exc"]
+        o = "None" if exc is None else f"(Some {c12.EXN.get(exc, 'OtherErr')})"
+        out.append((si, f"SrcRunV.src_check_validate {c12.c_cfg(cfg)} {fa} {c12.c_dir(st['pre'])} {c12.c_dir(st['post'])} {o}"))
+    return out
+
+
 def source_tie(chk, cases, outs):
     from props import c12
     t0 = time.time()
@@ -74,6 +93,10 @@ def source_tie(chk, cases, outs):
             for kind, t in rw_terms(c12, c, r):
                 terms.append(t)
                 owner.append((i, kind, None))
+        elif c["kind"] == "dir":
+            for si, t in validate_terms(c12, c, r):
+                terms.append(t)
+                owner.append((i, "validate", si))
     if not terms:
         chk.extra["source_tie_run"] = {"cases": 0, "disagreements": 0}
         return
